@@ -2127,6 +2127,10 @@ const (
 
 // Format formats the node.
 func (node *JoinTableExpr) Format(buf *TrackedBuffer) {
+	if node.Strategy == LookupJoinStrategy || node.Strategy == StreamJoinStrategy {
+		buf.Myprintf("%v %s %s %v%v", node.LeftExpr, node.Strategy, node.Join, node.RightExpr, node.Condition)
+		return
+	}
 	buf.Myprintf("%v %s %v%v", node.LeftExpr, node.Join, node.RightExpr, node.Condition)
 }
 
